@@ -43,6 +43,12 @@ def run(ctx):
         for bug in ("Bug_PushDirAfterRejectedPush", "Bug_RootPushedAgain", "Bug_LeafFlagAfterRollback"):
             ctx.tlc_mc("worktree", "FsStack_Gen", consts={bug: "TRUE", "MaxCalls": 3}, expect_violation="InvBalanced", coverage=False)
     ctx.cov["exhaustive"] = True
+    if len(cases) > 300000:
+        # the thorough enumerations have millions of behaviours: a seeded sample is replayed (TLC has visited all of them)
+        import random
+        ctx.cov["generated_behaviours"] = len(cases)
+        cases = random.Random(ctx.seed).sample(cases, 300000)
+        ctx.cov["exhaustive"] = False
     for c in cases:
         c["op"] = "fs"
     results = ctx.harness(binary, cases)
